@@ -29,6 +29,7 @@ class Engine:
         self.seed = seed
         self.timeout_ms = timeout_ms
         self.concrete = False  # concrete (native) mode: no branching allowed
+        self.fresh_solver_per_path = False
         self.values = None  # concrete input values (native mode)
         self._new_solver()
         self.trail = []
@@ -75,6 +76,10 @@ class Engine:
     # ------------------------------------------------------------ path state
     def _start_path(self, trail, model, nforks=0):
         self.nforks = nforks
+        if self.fresh_solver_per_path:
+            # arithmetic-heavy lemmas: z3 is much faster on a fresh solver than on a long-lived incremental one
+            self._new_solver()
+            self.last_trail = []
         common = 0
         lt = self.last_trail
         while common < len(lt) and common < len(trail) and lt[common] == trail[common]:
@@ -167,10 +172,19 @@ class Engine:
         self.stats["decisions"] += 1
         return d
 
-    def get_model(self):
+    def get_model(self, timeout_ms=None):
         if self.model is None:
-            r, m = self._check()
+            if timeout_ms is not None:
+                self.solver.set("timeout", timeout_ms)
+            try:
+                r, m = self._check()
+            finally:
+                if timeout_ms is not None:
+                    self.solver.set("timeout", self.timeout_ms)
             if r != "sat":
+                if r == "unknown":
+                    self.stats["unknown"] -= 1  # a model for sampling / validation only: not a verdict
+                    self.stats["model_timeouts"] = self.stats.get("model_timeouts", 0) + 1
                 return None
             self.model = m
         return self.model
